@@ -120,7 +120,9 @@ def run_check(mod, tier, seed, only_case=None):
         "distinct_extra": 0,
     }
     all_results = []
-    for case, r in zip(cases, pmap(mod, cases)):
+    ncases = len(cases)
+    sample_at = {0, ncases // 3, (2 * ncases) // 3, max(ncases - 1, 0)}  # samples spread over the enumeration, not only its head
+    for ci, (case, r) in enumerate(zip(cases, pmap(mod, cases))):
         if hasattr(mod, "cross_check"):
             all_results.append(r)
         agg["evaluations"] += int(r.get("n", 1))
@@ -135,7 +137,7 @@ def run_check(mod, tier, seed, only_case=None):
             agg["outcomes"][o] = agg["outcomes"].get(o, 0) + 1
         for k, v in r.get("counters", {}).items():
             agg["counters"][k] = agg["counters"].get(k, 0) + v
-        if r.get("sample") is not None and len(agg["samples"]) < 4:
+        if r.get("sample") is not None and (ci in sample_at or (len(agg["samples"]) < 2 and ci > max(sample_at))):
             agg["samples"].append(r["sample"])
         for f in r["fails"]:
             agg["fails"].append((case, f))
